@@ -18,8 +18,10 @@ def jobs(rng, thorough):
 
 
 def run(ctx: core.Ctx):
-    ctx.lean_stage(extra_props=("C17x", "Tie"))
-    b2check.run_b2(ctx, jobs, ["C17"], label="connection check")
+    ctx.lean_stage(extra_props=("C17x", "C17c", "Tie"))
+    js = []
+    results = b2check.run_b2(ctx, lambda rng, th: js.extend(jobs(rng, th)) or js, ["C17", "CCrun"], label="connection check")
+    b2check.cc_fold(ctx, results, js)
     b2check.run_b2(ctx, lambda rng, th: [(gen.conn_check(rng, drops=True, repeat=True), rng.randrange(10 ** 9), 0) for _ in range(8000 if th else 150)],
                    ["C17"], label="connection_check() run twice on the same YncaApi object (the second run is judged), monitor only", accept=False)
     ctx.info["rule"] = ("zone subsets x latencies {0, 60, 99, 100, 101, 150, 400 ms, 1.2..3 s} x first probe swallowed or not x silent / EOF / cannot open / link drop at or right after opening the port and in mid-check; each under a seeded schedule, some with extra line-level preemptions; a case = one schedule; non-trivial = distinct (spec, seed)")
